@@ -395,6 +395,8 @@ fn inject(rng: &mut Rng, src: &str) -> Vec<(&'static str, String, u32, u8)> {
     };
     v.push(("missing end tag", insert_at(rng, "<view><text>x</text>"), code(K::MissingEndTag), 2));
     v.push(("unterminated tag at end of input", format!("{}<view a=\"1\"", src), code(K::IncompleteTag), 4));
+    v.push(("unterminated end tag at end of input", format!("{}<view>x</view", src), code(K::IncompleteTag), 4));
+    v.push(("unterminated end tag at end of input (after white space)", format!("{}<view><text>t</text></view \n", src), code(K::IncompleteTag), 4));
     v.push(("unterminated binding in an attribute", insert_at(rng, "<view a=\"{{ a + b \"/>"), code(K::MissingExpressionEnd), 4));
     v.push(("unterminated binding at end of input", format!("{}<view>{{{{ a + b", src), code(K::MissingExpressionEnd), 4));
     v.push(("trailing garbage in a binding", insert_at(rng, "<view a=\"{{ a b }}\"/>"), code(K::UnexpectedExpressionCharacter), 4));
